@@ -106,6 +106,18 @@ func run(prop, tier, repo, verif, tags string, seed int, start time.Time) (code 
 }
 
 func init() {
+	debugHooks["scan"] = func(w *World) {
+		g, err := w.grammar()
+		if err != nil {
+			fmt.Println(err)
+			return
+		}
+		for _, c := range []rune{'.', '<', 'a', '!', ':', '1'} {
+			for _, o := range w.scanFrom(g, c) {
+				fmt.Printf("%q text=%q tok=%s panicked=%v cut=%v colons=%d\n", c, o.Text, g.tokName(o.Tok), o.Panicked, o.Cut, o.Colons)
+			}
+		}
+	}
 	debugHooks["risks"] = func(w *World) {
 		w.Census()
 		cnt := map[string]int{}
